@@ -24,7 +24,7 @@ var c16Mux = []string{"unset", "empty", "true", "false", "junk", "1"}
 func init() {
 	Register(&Prop{ID: "C16",
 		Meta: Meta{Level: "exploration",
-			Rule:       "real plugin.Serve in a simulated process started directly by the harness with a drawn environment: cookie variable {right, unset, empty, prefix, suffix, case change, other, padded} x misconfigured ServeConfig {ok, empty key, empty value} x PLUGIN_MULTIPLEX_GRPC {unset, empty, true, false, junk, 1} x protocol x TLS {none, provider, client cert in env} x listener kind {unix, unix in a socket dir, unix in a socket dir whose name contains % verbs, tcp with port range (GOOS knob), busy ports} x versioned sets; matrix enumerated, then seeded schedule noise inside Serve. Oracle: wrong cookie or misconfigured handshake -> exit status 1, no listener ever created, not one byte on stdout; right cookie -> the descriptor the process was started with as stdout carries exactly one line with 6 fields (7 iff the mux variable is non-empty), at the very write of its newline (kernel tap) a live listener exists at the announced address, a connect right after succeeds, and later output of the plugin's own code never reaches that descriptor",
+			Rule:       "real plugin.Serve in a simulated process started directly by the harness with a drawn environment: cookie variable {right, unset, empty, prefix, suffix, case change, other, padded} x misconfigured ServeConfig {ok, empty key, empty value} x PLUGIN_MULTIPLEX_GRPC {unset, empty, true, false, junk, 1} x protocol x TLS {none, provider, client cert in env} x listener kind {unix, unix in a socket dir, unix in a socket dir whose name contains % verbs, unix with PLUGIN_UNIX_SOCKET_GROUP {known name, gid, unknown group, junk}, tcp with port range (GOOS knob), busy ports} x versioned sets; matrix enumerated, then seeded schedule noise inside Serve. Oracle: wrong cookie or misconfigured handshake -> exit status 1, no listener ever created, not one byte on stdout; right cookie -> the descriptor the process was started with as stdout carries exactly one line with 6 fields (7 iff the mux variable is non-empty), at the very write of its newline (kernel tap) a live listener exists at the announced address, a connect right after succeeds, and later output of the plugin's own code never reaches that descriptor",
 			Exhaustive: "cookie x handshake-config x mux-variable x protocol x TLS x listener-kind matrix"},
 		Plan: func(tier string, seed uint64, stage int, prev []*h.Result) []*k.Spec {
 			if stage > 0 {
@@ -39,7 +39,10 @@ func init() {
 					for _, mux := range c16Mux {
 						for _, proto := range []string{"netrpc", "grpc"} {
 							for _, tlsm := range []string{"none", "provider", "envcert", "provider-error"} {
-								for _, ln := range []string{"unix", "unixdir", "unixdirpct", "tcp", "tcpbusy"} {
+								for _, ln := range []string{"unix", "unixdir", "unixdirpct", "tcp", "tcpbusy", "unixgroup", "unixgroup-gid", "unixgroup-unknown", "unixgroup-junk"} {
+									if strings.HasPrefix(ln, "unixgroup") && (cookie != "right" || hc != "ok" || tlsm != "none") {
+										continue
+									}
 									// keep the matrix affordable: vary listener kind and tls fully only for the right cookie
 									// (a TLS provider that FAILS is tried with every cookie value: the refusal must not depend on it)
 									if cookie != "right" && (ln != "unix" || (tlsm != "none" && tlsm != "provider-error")) {
@@ -195,6 +198,16 @@ func runC16(r *h.Run) {
 		w.Mkdir("/run/plugsock")
 		w.Mkdir("/run")
 		env = append(env, "PLUGIN_UNIX_SOCKET_DIR=/run/plugsock")
+	case "unixgroup", "unixgroup-gid", "unixgroup-unknown", "unixgroup-junk":
+		// the socket is to be made writable for a group: one that exists (by
+		// name, by number), one that does not, a value that is neither
+		w.Mkdir("/run")
+		w.Mkdir("/run/plugsock")
+		env = append(env, "PLUGIN_UNIX_SOCKET_DIR=/run/plugsock", "PLUGIN_UNIX_SOCKET_GROUP="+map[string]string{
+			"unixgroup": "plugins", "unixgroup-gid": "2000", "unixgroup-unknown": "nosuchgroup", "unixgroup-junk": "12x"}[ln])
+		if ln == "unixgroup-unknown" || ln == "unixgroup-junk" {
+			noListener = true
+		}
 	case "unixdirpct":
 		// a directory name that happens to contain formatting verbs
 		d := []string{"/run/my%20plugins", "/run/cpu100%", "/run/%s%d%v"}[w.Range("pctdir", 3)]
